@@ -33,7 +33,7 @@ XML_LISTS = (NS + "assetAdministrationShells", NS + "submodels", NS + "conceptDe
 DOCUMENTED = (KeyError, ValueError, TypeError, model.AASConstraintViolation)
 
 OPS = ("delete", "null", "wrongtype", "enum", "empty", "overlong", "forbidden", "xsliteral", "base64",
-       "modeltype", "dupid", "wronglist", "harmless", "nsrebind", "xsextreme")
+       "modeltype", "dupid", "wronglist", "harmless", "nsrebind", "xsextreme", "lexeq")
 # "harmless" is the 13th operator: it changes the text of the document without changing its content (XML comments,
 # processing instructions and white space between elements / inside text; JSON insignificant white space, member
 # order, string escapes) - both readers must return exactly the undamaged result
@@ -103,6 +103,77 @@ for _t in ("integer", "long", "int", "short", "byte", "nonPositiveInteger", "neg
 XS_EXTREME_PAIRS = [(t, lit) for t in sorted(XS_EXTREME) for lit in XS_EXTREME[t]] + \
                    [("xs:noSuchType", "1"), ("", "1"), ("xs:Int", "1"), ("int", "1")]
 XS_FIXED = {"lastUpdate": "xs:dateTime", "minInterval": "xs:duration", "maxInterval": "xs:duration"}
+
+
+INT_TYPES = {"xs:" + t for t in ("integer", "long", "int", "short", "byte", "nonPositiveInteger", "negativeInteger",
+                                 "nonNegativeInteger", "positiveInteger", "unsignedLong", "unsignedInt", "unsignedShort",
+                                 "unsignedByte")}
+
+
+def lexeq_variants(xtype, t, xml):
+    """other literals of the lexical space of xtype that denote the *same value* as literal t (XML Schema Part 2);
+    white-space variants only for XML (whiteSpace facet `collapse` of every type but xs:string)."""
+    import re
+    out = []
+    # white space around the literal only where the XML schema of the metamodel itself declares the element with that
+    # type (orderRelevant and levelType members: xs:boolean, blob value: xs:base64Binary); the typed value / min / max
+    # elements are xs:string for the schema, their content is the bare literal
+    ws = (lambda x: [" " + x, x + "\n", "\t\r\n " + x + "  "]) if xml == "schema" else (lambda x: [])
+    if xtype in INT_TYPES and re.fullmatch(r"[+-]?[0-9]+", t):
+        sign, digits = (t[0], t[1:]) if t[0] in "+-" else ("", t)
+        out += [sign + "000" + digits]
+        if sign == "":
+            out += ["+" + digits] if xtype not in ("xs:negativeInteger",) else []
+        if digits.strip("0") == "" and xtype in ("xs:integer", "xs:long", "xs:int", "xs:short", "xs:byte",
+                                                  "xs:nonPositiveInteger", "xs:nonNegativeInteger"):
+            out += ["-0", "+0"]
+        out += ws(t)
+    elif xtype == "xs:decimal" and re.fullmatch(r"[+-]?([0-9]+(\.[0-9]*)?|\.[0-9]+)", t):
+        sign, body = (t[0], t[1:]) if t[0] in "+-" else ("", t)
+        out += [sign + "00" + body if not body.startswith(".") else sign + "0" + body,
+                sign + (body + "000" if "." in body else body + ".000")]
+        if sign == "":
+            out.append("+" + body)
+        if "." not in body:
+            out.append(sign + body + ".")
+        out += ws(t)
+    elif xtype in ("xs:double", "xs:float") and re.fullmatch(r"[+-]?([0-9]+(\.[0-9]*)?|\.[0-9]+)([eE][+-]?[0-9]+)?", t):
+        f = float(t)
+        if f == f and f not in (float("inf"), float("-inf")):
+            out += [format(f, ".17e") if xtype == "xs:double" else t, t + "E0" if "e" not in t.lower() else t.upper(),
+                    "+" + t if t[0] not in "+-" else t]
+            if "." not in t and "e" not in t.lower():
+                out.append(t + ".0")
+        out += ws(t)
+    elif xtype == "xs:boolean" and t in ("true", "false", "1", "0"):
+        out += [{"true": "1", "false": "0", "1": "true", "0": "false"}[t]] + ws(t)
+    elif xtype in ("xs:dateTime", "xs:date", "xs:time", "xs:gYear", "xs:gYearMonth", "xs:gMonth", "xs:gDay", "xs:gMonthDay"):
+        if t.endswith("Z"):
+            out += [t[:-1] + "+00:00", t[:-1] + "-00:00"]
+        elif t.endswith("+00:00"):
+            out += [t[:-6] + "Z"]
+        m = re.fullmatch(r"(.*T?\d\d:\d\d:\d\d)(\.\d+)?(Z|[+-]\d\d:\d\d)?", t)
+        if m and xtype in ("xs:dateTime", "xs:time"):
+            frac = m.group(2) or ""
+            out += [m.group(1) + (frac + "000" if frac else ".000") + (m.group(3) or "")]
+        out += ws(t)
+    elif xtype == "xs:duration" and re.fullmatch(r"-?P(\d+Y)?(\d+M)?(\d+D)?(T(\d+H)?(\d+M)?(\d+(\.\d+)?S)?)?", t):
+        m = re.fullmatch(r"(-?)P(?:(\d+)Y)?(?:(\d+)M)?(?:(\d+)D)?(?:T(?:(\d+)H)?(?:(\d+)M)?(?:(\d+(?:\.\d+)?)S)?)?", t)
+        g = [x or "0" for x in m.groups()[1:]]
+        out += [f"{m.group(1)}P{g[0]}Y{g[1]}M{g[2]}DT{g[3]}H{g[4]}M{g[5]}S",
+                f"{m.group(1)}P0{g[0]}Y0{g[1]}M0{g[2]}DT0{g[3]}H0{g[4]}M0{g[5]}S"]
+        out += ws(t)
+    elif xtype == "xs:hexBinary" and re.fullmatch(r"([0-9a-fA-F]{2})*", t):
+        out += [t.lower(), t.upper()] + ws(t)
+    elif xtype == "xs:base64Binary" and re.fullmatch(r"[A-Za-z0-9+/]*={0,2}", t) and len(t) % 4 == 0:
+        if xml == "schema":
+            out += ["\n".join(t[i:i + 4] for i in range(0, len(t), 4)) + "\n",
+                    " ".join(t[i:i + 8] for i in range(0, len(t), 8)),
+                    "\n      " + "\r\n      ".join(t[i:i + 76] for i in range(0, max(len(t), 1), 76)) + "\n    ",
+                    t + "\n", "  " + t]
+    elif xtype in ("xs:anyURI", "xs:normalizedString"):
+        pass
+    return [x for x in dict.fromkeys(out) if x != t]
 
 
 def extreme_pair(key, variant):
@@ -371,6 +442,8 @@ def json_applicable(doc, path):
                 and ("valueType" in parent or parent.get("modelType") in ("Extension",))) or key in XS_KEYS:
             ops.append("xsliteral")
             ops.append("xsextreme")
+            if lexeq_variants(XS_FIXED.get(key) or parent.get("valueType"), v, False):
+                ops.append("lexeq")
         if isinstance(parent, dict) and parent.get("modelType") == "Blob" and key == "value":
             ops.append("base64")
         if key == "id" and len(path) == 3:
@@ -392,6 +465,13 @@ def json_damage(doc, path, op, variant, other_id=None):
     d = copy.deepcopy(doc)
     if op == "harmless":
         return RawText(json_relex(d, variant))
+    if op == "lexeq":
+        par = _jget(d, path[:-1])
+        alts = lexeq_variants(XS_FIXED.get(path[-1]) or par.get("valueType"), par[path[-1]], False)
+        if not alts:
+            return None
+        par[path[-1]] = alts[variant % len(alts)]
+        return d
     parent = _jget(d, path[:-1])
     key = path[-1]
     v = parent[key]
@@ -544,6 +624,32 @@ ENUM_TAGS = ENUM_KEYS
 XS_TAGS = XS_KEYS
 
 
+def xml_leaf_type(el):
+    """XSD type of the text of a leaf element, as far as the document itself says it"""
+    parent = el.getparent()
+    name = _lname(el)
+    if len(el) > 0 or el.text is None or parent is None:
+        return None
+    if name in XS_FIXED:
+        return XS_FIXED[name]
+    pn = _lname(parent)
+    if name == "orderRelevant" or pn == "levelType":
+        return "xs:boolean"
+    if name == "value" and pn == "blob":
+        return "xs:base64Binary"
+    if name in ("value", "min", "max") and pn in ("property", "range", "qualifier", "extension"):
+        vt = parent.find(NS + "valueType")
+        return vt.text if vt is not None else None
+    return None
+
+
+def xml_schema_typed(el):
+    parent = el.getparent()
+    pn = _lname(parent) if parent is not None else ""
+    return "schema" if (_lname(el) == "orderRelevant" or pn == "levelType" or (_lname(el) == "value" and pn == "blob")) \
+        else "xml"
+
+
 def xml_applicable(root, path):
     el = _xget(root, path)
     parent = el.getparent()
@@ -560,6 +666,8 @@ def xml_applicable(root, path):
                 and (parent.find(NS + "valueType") is not None or _lname(parent) == "extension")) or name in XS_TAGS:
             ops.append("xsliteral")
             ops.append("xsextreme")
+        if xml_leaf_type(el) and lexeq_variants(xml_leaf_type(el), el.text, xml_schema_typed(el)):
+            ops.append("lexeq")
         if name == "value" and parent is not None and _lname(parent) == "blob":
             ops.append("base64")
         if name == "id" and len(path) == 3:
@@ -579,6 +687,12 @@ def xml_damage(root, path, op, variant, other_id=None):
     name = _lname(el)
     if op == "harmless":
         return xml_relex(r, el, parent, variant)
+    if op == "lexeq":
+        alts = lexeq_variants(xml_leaf_type(el), el.text, xml_schema_typed(el))
+        if not alts:
+            return None
+        el.text = alts[variant % len(alts)]
+        return r
     if op == "nsrebind":
         return xml_nsrebind(r, el, variant)
     if op == "delete":
